@@ -21,7 +21,12 @@
                        both wires away) [supported] asks nothing of .conn any more: the conditions
                        conn_fresh (no operand spells an invented cable name), conns_last (every .conn
                        after the statements naming nets) and "no cable in two .conn" are gone, and the
-                       former witnesses read faithfully (C18_conn_capture_repaired, C18_conn_chain_reads);
+                       former witnesses read faithfully (C18_conn_capture_repaired, C18_conn_chain_reads).
+                       Since the repair of parse_name (the output net of .names is compared with the exact
+                       word unconn, as the actuals of .subckt/.gate/.latch always were, instead of
+                       `"unconn" in name`) a net whose name merely contains the text unconn is an ordinary
+                       net everywhere: the .names driving it is called by it
+                       (C18_names_unconn_substring_repaired);
      write-then-read   C18_full is the statement; REFUTED at full generality (C18_roundtrip_refuted: the
                        written file of a supported document is rejected on re-reading).
                        [roundtrippable] (BlifSpec) is the decidable side condition excluding the classes
@@ -150,6 +155,26 @@ Example C18_conn_capture_faithful :
   supported doc_conn_capture = true /\ exists n, elab doc_conn_capture = Ok n /\ denote doc_conn_capture n.
 Proof. exact conn_capture_faithful. Qed.
 Print Assumptions C18_conn_capture_faithful.
+
+(* REPAIRED (was the open finding C18-names-unconn-substring: parse_name tested `"unconn" in name` on the
+   output net of a .names, so a .names driving rx_unconnected or __vpr__unconn3 was given the default name
+   logic-gate_<k>_instance_<j> instead of the name of the net it drives; .subckt/.gate/.latch compare with
+   the exact word).  A document with such nets as operand and as output of .names, next to the placeholder
+   itself, is supported and read faithfully: the instances are called y, __vpr__unconn3, INV_instance_0 and
+   logic-gate_1_instance_0 (only the .names whose output IS unconn keeps a default name), open pins are
+   recorded for the exact word only (O[0] of the gate, out[0] of the last .names), rx_unconnected sits on
+   pin in_1 of the first .names, __vpr__unconn3 joins its port, the output of the second .names and pin I
+   of the gate, and the model has the four cables the file names *)
+Example C18_names_unconn_substring_repaired :
+  supported doc_names_unconn = true /\
+  exists n m, elab doc_names_unconn = Ok n /\ find_model nm_top (b_models n) = Some m /\
+    denote doc_names_unconn n /\
+    map i_name (m_insts m) = names_unconn_inst_names /\
+    map i_unconn (m_insts m) = names_unconn_open /\
+    same_wire m pin_rx pin_i0_in1 /\ same_wire m pin_vpr pin_i1_out /\ same_wire m pin_vpr pin_i2_I /\
+    length (m_cables m) = 4.
+Proof. exact names_unconn_substring_repaired. Qed.
+Print Assumptions C18_names_unconn_substring_repaired.
 
 (* REPAIRED by the same change (were the open findings conn-before-use and conn-same-net-twice, both excluded
    from [supported] by conns_last / "no cable in two .conn"): ".conn a b" ahead of the statement that uses
